@@ -1,9 +1,12 @@
 /-
   Trees of components across the deferred pipeline, to any depth and width (model of the code).
 
-  Fragment `T`: templates built from text, `{{ }}`, if, for, with, elements, `{% slot %}` tags (not flagged `default`; no fill
-  is ever given, so they render their default content) and `{% component name … %}{% endcomponent %}` tags with an empty body, where every registered component's template is again in `T` (so components nest, repeat in
-  loops and may even be recursive) and component data come from the call (keyword arguments, constants, the id).
+  Fragment `T`: templates built from text, `{{ }}`, if, for, with, elements, `{% slot %}` tags (not flagged `default`) and
+  `{% component name … %}…{% endcomponent %}` tags whose body is empty or made of `{% fill "name" [data="d"] %}` tags with
+  content of the fragment (`tnode` / `tnodes` / `fbody`), where every registered component's template is again in `T` — so
+  components nest through templates and through fill content, repeat in loops and may even be recursive — and component
+  data come from the call (keyword arguments, constants, the id).  A slot renders the fill of its name held by the
+  instance its context names, else its own default content (`slot_unfolds`).
 
   What is proved, for every fuel, library, page, context without slot references and world — by one mutual induction over
   `renderNodes` / `renderFor` / `renderNode` / `renderCompTag` / `renderImpl` / `runRenderer` and the `while` loop of
@@ -18,8 +21,9 @@
   * the `get_context_data` calls of the render carry the ids `w.nextId, w.nextId + 1, …` in this order, each exactly once
     (distinct ids for all instances of a page).
 
-  Partial correctness: the statements speak about renders that return.  (A render in this fragment fails only with
-  `NotRegistered`, at the instance / work budget, or — recursion without a base case — at fuel exhaustion.)
+  Partial correctness: the statements speak about renders that return.  (Without fault injection a render of this fragment
+  fails only with `NotRegistered`, a `TemplateSyntaxError` of the slot / fill checks, at the instance / work budget, or —
+  recursion without a base case — at fuel exhaustion; runs that raise are the subject of `TreeFail.lean`.)
 -/
 import Djc.Proofs.Slotty
 namespace Djc.Proofs.Tree
